@@ -34,10 +34,12 @@ def _variant_job(args):
     try:
         prog = Program(overlay=overlay)
         ctx = run_rules(module, prog, tier)
-        return {'ok': True,
-                'violated': [list(o.key) + [o.at] for o in
-                             ctx.by_outcome(VIOLATED)],
-                'n': len(ctx.obligations)}
+        violated = [list(o.key) + [o.at] for o in ctx.by_outcome(VIOLATED)]
+        if ctx.errors and not violated:
+            return {'ok': False,
+                    'error': f'AnalysisError: {ctx.errors[0]}'}
+        return {'ok': True, 'violated': violated,
+                'n': len(ctx.obligations), 'errors': list(ctx.errors)}
     except AnalysisError as err:
         return {'ok': False, 'error': f'AnalysisError: {err}'}
     except Exception as err:   # pylint: disable=broad-except
@@ -170,9 +172,20 @@ def main(argv=None):
     try:
         program = Program()
         ctx = run_rules(module, program, args.tier)
-        ctx.check_not_all_undecided()
-        var_records, var_failures = run_variants(module, ctx, program,
-                                                 args.tier)
+        try:
+            ctx.check_not_all_undecided()
+        except AnalysisError as err:
+            ctx.errors.append(str(err))
+        if ctx.errors and not ctx.by_outcome(VIOLATED):
+            for err in ctx.errors:
+                print(f'ANALYSIS-ERROR property={prop} {err}')
+            return 2
+        if ctx.errors:
+            # some rules gave up but others found violations: report those
+            var_records, var_failures = [], []
+        else:
+            var_records, var_failures = run_variants(module, ctx, program,
+                                                     args.tier)
     except AnalysisError as err:
         print(f'ANALYSIS-ERROR property={prop} {err}')
         return 2
@@ -293,8 +306,12 @@ def main(argv=None):
     if not args.no_evidence:
         write_json(os.path.join(EVIDENCE_DIR, f'{prop}.json'), evidence)
 
+    for err in ctx.errors:
+        print(f'ANALYSIS-ERROR property={prop} {err}')
     if new_violations:
         return 1
+    if ctx.errors:
+        return 2
     if var_failures:
         for fail in var_failures:
             print(f'ANALYSIS-ERROR property={prop} self-test: {fail}')
